@@ -448,7 +448,6 @@ package v1
 //@   replay val rnil = call_Read_0_err == nil
 //@   loop 0 invariant 0 <= n && n <= 65536 && 0 <= newlines && newlines <= 3 && 0 <= lastNewline && lastNewline <= n
 //@   loop 0 invariant *in == old(*in) && (*in).pos == old((*in).pos) + n && (*in).pos <= (*in).total && err == srcerr
-//@   loop 0 invariant [C02.srcerr] (srcerr != nil && srcerr != io.EOF) ==> newlines < 3
 //@   loop 0 invariant buf != nil && len(*buf) == 65553 && fresh(*buf) && !released[(*buf).base]
 //@   loop 0 invariant forall k :: 0 <= k && k < n ==> (*buf)[k] == (*in).data[old((*in).pos) + k]
 //@   loop 0 invariant newlines == 0 ==> (lastNewline == 0 && len(manifest) == 0 && len(mac) == 0)
